@@ -197,6 +197,17 @@ def source_(ctx, i, rng, d):
             props.append({"identifier": "NOTE%d" % len(props), "value": rng.choice(['say "hi"', "100%", "a(b)c", "tab\there", ""])})
             c["EDIF.properties"] = props
             ctx.count("instances_with_special_property_values")
+        if k == 1 and rng.random() < 0.5:
+            # the same netlist kind written as Verilog; a cell name used in three or more libraries (each library is its own scope)
+            libs_ = list(n.libraries)
+            while len(libs_) < 3:
+                libs_.append(n.create_library("extra_lib%d" % len(libs_)))
+            for l_ in libs_:
+                if not any(d_.name == "SHARED_NAME" for d_ in l_.definitions):
+                    d_ = l_.create_definition("SHARED_NAME")
+                    d_.create_port("p", pins=1, direction=sdn.IN)
+            ctx.count("api_built_netlists_written_as_verilog")
+            return n, ".v", "generated API-built, as Verilog"
         return n, ".edf", "generated API-built"
     if k == 2:
         fs = sorted(glob.glob(os.path.join(common.REPO, "example_netlists", "EDIF_netlists", "*.edf.zip")))
